@@ -661,3 +661,9 @@ impl<'me> ActiveQueryGuard<'me> {
         }
     }
 }
+
+/// Has the innermost executing query reported an untracked read?
+pub(crate) fn top_frame_is_untracked(l: &ZalsaLocal) -> bool {
+    // SAFETY: not reentrant
+    unsafe { l.with_query_stack_unchecked(|stack| crate::active_query::verif::is_untracked(stack.last().unwrap())) }
+}
